@@ -500,3 +500,17 @@ package tsm1
 //@   requires r.r != nil && r.n >= 0 && r.n <= 1000000000000
 //@   ensures failed_entry_not_counted: r.err != nil || !result ==> r.n == old(r.n)
 //@   ensures good_entry_counted_whole: result && r.err == nil ==> r.n >= old(r.n) + 5
+
+// ---- C13: the float (XOR) encoder never writes a value into a field too narrow for it ----
+// A new window is announced as 5 bits of leading-zero count and 6 bits of significant-bit count (64 is written
+// as 0). The count of leading zeros may be under-estimated (the clamp does that) but what is written must be
+// what the significant-bit count was computed from: it has to fit its 5 bits.
+//@ func (*FloatEncoder).Write
+//@   props C13
+//@   nosafety
+//@   arith bv
+//@   call BitWriter.WriteBits#3 requires leading_fits_its_5_bits: leading < 32
+//@   call BitWriter.WriteBits#4 requires sigbits_in_range: sigbits >= 1 && sigbits <= 64 && sigbits == 64 - leading - trailing
+//@   call BitWriter.WriteBits#5 requires significant_bits_fit: sigbits == 64 || (vDelta >> trailing) >> sigbits == 0
+//@   call BitWriter.WriteBits#5 requires nothing_cut_off_below: (vDelta >> trailing) << trailing == vDelta
+//@   call BitWriter.WriteBits#2 requires reused_window_loses_nothing: (vDelta >> s.trailing) << s.trailing == vDelta && (s.leading == 0 || vDelta >> (64 - s.leading) == 0)
